@@ -306,3 +306,21 @@ func init() {
 	addControl(control{Prop: "C15", Name: "renumber-with-named-context-literal", Rule: "R15b", Kind: "refactor", Quick: true,
 		File: "ucfg.go", Old: "			ctx := v.Context()\n			ctx.field = fmt.Sprintf(\"%d\", j)\n			v.SetContext(ctx)", New: "			moved := v.Context()\n			moved.field = fmt.Sprintf(\"%v\", j)\n			v.SetContext(moved)"})
 }
+
+func init() {
+	// ---------------- C12 ----------------
+	addControl(control{Prop: "C12", Name: "setter-ignores-index", Rule: "R12a", Kind: "mutant", Quick: true,
+		File: "getset.go", Old: "	return c.setField(name, idx, &cfgUint{u: value}, opts)", New: "	return c.setField(name, -1, &cfgUint{u: value}, opts)", Expect: "R12a/(*ucfg.Config).SetUint"})
+	addControl(control{Prop: "C12", Name: "getter-reads-top-level-directly", Rule: "R12a", Kind: "mutant", Quick: true,
+		File: "getset.go", Old: "	O := makeOptions(opts)\n	v, err := c.getField(name, idx, O)\n	if err != nil {\n		return false, err\n	}\n	b, fail := v.toBool(O)", New: "	O := makeOptions(opts)\n	v, found := c.fields.get(name)\n	if !found || idx >= 0 {\n		return false, raiseMissing(c, name)\n	}\n	b, fail := v.toBool(O)", Expect: "R12a/(*ucfg.Config).Bool"})
+	addControl(control{Prop: "C12", Name: "has-parses-without-callers-options", Rule: "R12a", Kind: "mutant",
+		File: "ucfg.go", Old: "	opts := makeOptions(options)\n	p := parsePathIdx(name, idx, opts)\n	return p.Has(c, opts)", New: "	opts := makeOptions(options)\n	p := parsePathIdx(name, idx, makeOptions(nil))\n	return p.Has(c, opts)", Expect: "R12a/(*ucfg.Config).Has"})
+	addControl(control{Prop: "C12", Name: "remove-follows-environments", Rule: "R12c", Kind: "mutant",
+		File: "ucfg.go", Old: "	opts.env = nil\n	opts.resolvers = nil", New: "	opts.resolvers = nil", Expect: "R12c/(*ucfg.Config).Remove"})
+	addControl(control{Prop: "C12", Name: "child-is-a-copy", Rule: "R12d", Kind: "mutant",
+		File: "types.go", Old: "func (c cfgSub) toConfig(*options) (*Config, error) { return c.c, nil }", New: "func (c cfgSub) toConfig(*options) (*Config, error) {\n	return c.cpy(c.c.ctx).(cfgSub).c, nil\n}", Expect: "R12d/(ucfg.cfgSub).toConfig"})
+	addControl(control{Prop: "C12", Name: "stray-dictionary-write-in-getfields", Rule: "R12b", Kind: "mutant",
+		File: "ucfg.go", Old: "	var names []string\n	for k := range c.fields.dict() {\n		names = append(names, k)\n	}\n	return names", New: "	var names []string\n	for k, v := range c.fields.dict() {\n		if isNil(v) {\n			delete(c.fields.d, k)\n			continue\n		}\n		names = append(names, k)\n	}\n	return names", Expect: "R12b/(*ucfg.Config).GetFields"})
+	addControl(control{Prop: "C12", Name: "getter-with-named-intermediate", Rule: "R12a", Kind: "refactor", Quick: true,
+		File: "getset.go", Old: "func (c *Config) getField(name string, idx int, opts *options) (value, Error) {\n	p := parsePathIdx(name, idx, opts)\n	v, err := p.GetValue(c, opts)", New: "func (c *Config) getField(name string, idx int, opts *options) (value, Error) {\n	path := parsePathIdx(name, idx, opts)\n	p := path\n	v, err := p.GetValue(c, opts)"})
+}
